@@ -160,7 +160,7 @@ func TestC16(t *testing.T) {
 		ev.Class("guard", "softmax-over-batch-axis-flagged")
 	})
 
-	check(t, "sample-models", 600, 1500, func(rt *rapid.T) {
+	check(t, "sample-models", 600, 3000, func(rt *rapid.T) {
 		sms := sampleModels()
 		names := []string{"gru", "gru", "mlp", "scaler"}
 		if rapid.IntRange(0, 19).Draw(rt, "ndm") == 0 {
@@ -191,7 +191,7 @@ func TestC16(t *testing.T) {
 		}
 	})
 
-	check(t, "generated", 2000, 6000, func(rt *rapid.T) {
+	check(t, "generated", 2000, 15000, func(rt *rapid.T) {
 		gg := genGraph(rt, ggOpts{maxNodes: 8, perSample: true, continuousOnly: true, allOutputs: rapid.Bool().Draw(rt, "allOutputs")})
 		mp := gg.model(rt)
 		lr := loadBytes(marshalModel(mp))
